@@ -63,6 +63,7 @@ def paths_for(desc: tuple) -> List[str]:
             if R.is_port(sub):
                 out.append(prefix + name)
             else:
+                out.append(prefix + name)  # a (scalar) value emitted to the name of a namespace
                 walk(sub, prefix + name + '.')
         out.append(prefix + 'u')
         out.append(prefix + 'u.v')
@@ -342,8 +343,7 @@ def run_check(tier: str, seed: int, workers: Any) -> Dict[str, Any]:
         'exhaustive': True,
     }
     return {'violations': violations, 'coverage': coverage, 'errors': [], 'level': 'model_checking',
-            'assumptions': ['outside the alphabet: emitting a mapping, emitting to the name of a namespace, a path through '
-                            'a leaf port', 'the reference model (pv/refports.py) is written from the statement'],
+            'assumptions': ['outside the alphabet: emitting a mapping, a path through a leaf port', 'the reference model (pv/refports.py) is written from the statement'],
             'bounds': {'tier': tier, 'specs': len(all_specs), 'max_emissions': max_len}}
 
 
